@@ -62,7 +62,8 @@ class C12(Check):
                    'a registration is ordered against the message stream by a sync marker the peer sends']
     PROBES = ('c12.peer-mode', 'c12.e2e-mode', 'c12.proxy-mode', 'c12.driver-update', 'c12.mirror-compared',
               'c12.concurrent-writes', 'c12.malformed', 'c12.future-timestamp',
-              'c12.shorthand', 'c12.raising-callback', 'c12.oneshot-callback', 'c12.proxy-drop')
+              'c12.shorthand', 'c12.raising-callback', 'c12.oneshot-callback', 'c12.proxy-drop',
+              'c12.node-restart-added', 'c12.node-restart-changed', 'c12.node-restart-same')
 
     def gen_case(self, rng, tier):
         mode = rng.choice(['peer', 'peer', 'e2e', 'e2e', 'proxy'])
@@ -101,6 +102,43 @@ class C12(Check):
                         op['variant'] = rng.choice(['nodata', 'noqual', 'badjson', 'badvalue', 'unknown'])
                     elif q < 0.16 and ((a == 'target' and action == 'changed') or (a == 'value' and action != 'changed')):
                         op['variant'] = 'shorthand'     # 'm' stands for 'm:target' in changed, else for 'm:value'
+                    ops.append(op)
+            if rng.random() < 0.15:
+                # the node is restarted with another description: the client loses the connection, reconnects by
+                # itself and describes again; the messages after that belong to the new description
+                how = rng.choice(['added', 'added', 'same', 'changed'])
+                desc2 = json.loads(json.dumps(desc))
+                if how == 'added':
+                    extra = gen_description(rng)['modules']
+                    desc2['modules']['m9'] = extra['m0']
+                elif how == 'changed':
+                    # (an accessible not used so far: the client keeps its cache over the reconnect, an entry of
+                    # the old datatype would have to be judged by the old datainfo)
+                    used = {(o['m'], o['a']) for o in ops if 'a' in o}
+                    free = [(m, a) for m, a, _di in params if (m, a) not in used]
+                    if free:
+                        m, a = rng.choice(free)
+                        desc2['modules'][m]['accessibles'][a]['datainfo'] = dtgen.gen_datainfo(rng, 1)
+                    else:
+                        how = 'same'
+                shape['description2'] = desc2
+                shape['restart_how'] = how
+                params2 = [(m, a, d['datainfo']) for m, md in desc2['modules'].items() for a, d in md['accessibles'].items()]
+                new = [x for x in params2 if x[0] == 'm9'] or params2
+                ops.append({'op': 'restart'})
+                for _ in range(rng.randrange(2, 8)):
+                    m, a, di = rng.choice(new if rng.random() < 0.6 else params2)
+                    if rng.random() < 0.25:
+                        level = rng.choice(['node', 'module', 'param'])
+                        ops.append({'op': 'register', 'cb': ncb, 'level': level, 'm': m, 'a': a,
+                                    'kind': rng.choice(['updateEvent', 'updateItem']), 'behave': 'ok'})
+                        ncb += 1
+                    action = rng.choice(['update', 'update', 'error_update', 'reply', 'changed'])
+                    op = {'op': 'msg', 'm': m, 'a': a, 'action': action, 't': rng.choice([None, 5.0])}
+                    if action.startswith('error_'):
+                        op['err'] = ['HardwareError', 'plain text']
+                    else:
+                        op['v'] = dtgen.valid_wire(rng, di)
                     ops.append(op)
         else:
             specs = [genmod.gen_module_spec(rng, f'm{i}', depth=rng.choice([1, 2]), full=True)
@@ -250,6 +288,28 @@ class C12(Check):
                 events.append(('reg', op['cb'], op['kind'], repr(key), op['behave'], sim.vnow()))
                 cl.register_callback(key, fn)
                 events.append(('regdone', op['cb']))
+            elif op['op'] == 'restart':
+                sync()
+                sim.count('c12.node-restart-' + shape['restart_how'])
+                # (callbacks are taken off first: what they see while the connection is down is not judged)
+                for cbid, (key, fn, _) in sorted(cbs.items()):
+                    events.append(('unreg', cbid))
+                    try:
+                        cl.unregister_callback(key, fn)
+                    except Exception as e:   # noqa
+                        events.append(('unreg-raised', cbid, repr(e)))
+                cbs.clear()
+                desc2 = shape['description2']
+                pr.description = desc2
+                dis.update({(m, internal(a)): d['datainfo'] for m, md in desc2['modules'].items()
+                            for a, d in md['accessibles'].items()})
+                nconn = len(pr.conns)
+                pr.schedule(conn, 0, ('close',))
+                if not sim.wait_until(lambda: len(pr.conns) > nconn and cl.state == 'connected', 120, what='reconnect'):
+                    raise RuntimeError('the client did not reconnect to the restarted peer')
+                conn = pr.conns[-1]
+                sync()
+                events.append(('restart', sim.vnow()))
             elif op['op'] == 'unregister':
                 if op['cb'] in cbs:
                     sync()
@@ -474,6 +534,8 @@ class C12(Check):
                     active[cbid] = (key, kind, behave)
             elif ev[0] == 'unreg':
                 active.pop(ev[1], None)
+            elif ev[0] == 'restart':
+                pass      # the client keeps its cache over the reconnect
             elif ev[0] == 'unreg-raised':
                 res.append(Violation('C12.unregister-raised', 'callback', f'unregister_callback raised {ev[2]}'))
             elif ev[0] == 'msg':
